@@ -166,7 +166,7 @@ func (fixerEngine) Check(prop, tier string, c *runner.Case) *runner.Result {
 			res.Cell("op-without-responses")
 		}
 	}
-	if _, ok := before["paths"]; !ok {
+	if before["paths"] == nil {
 		res.Cell("doc-without-paths")
 	}
 	if _, ok := before["responses"]; !ok {
